@@ -134,6 +134,12 @@ impl<'a> Suite<'a> {
 		let mut empty_dn = specs[0].0.clone();
 		empty_dn.dn = Dn(vec![]);
 		specs.push((empty_dn, "ed25519".into()));
+		// an issuer whose own validity window is narrower than what it is asked to issue
+		let mut narrow = specs[0].0.clone();
+		narrow.nb = Dt::ymd(2021, 1, 1);
+		narrow.na = Dt::ymd(2030, 1, 1);
+		narrow.dn = Dn(vec![(DnT::Cn, DnV::Utf8("CA with a short window".into()))]);
+		specs.push((narrow, "ed25519".into()));
 		for (p, alg) in specs {
 			let key = self.ctx.key(&alg);
 			if let Some(rp) = p.real() {
@@ -238,6 +244,105 @@ impl<'a> Suite<'a> {
 			}
 		}
 		out
+	}
+
+	/// the third way to a certificate: a request is generated from `p`, parsed back, optionally
+	/// edited (the parsed parameters are a public field), and issued by issuer `issuer_idx`.  The
+	/// issued certificate is held against the model and the clause lists exactly like one issued
+	/// with `signed_by`, for the parameters the request was parsed into.
+	#[cfg(not(feature = "nocrypto"))]
+	pub fn cert_from_request(&mut self, p: &PCert, issuer_idx: usize, alg: &str, what: &str, tweak: &dyn Fn(&mut CertificateParams)) -> Option<Vec<u8>> {
+		use std::panic::{catch_unwind, AssertUnwindSafe};
+		let key = self.ctx.key(alg);
+		let rp = p.real()?;
+		let csr = catch_unwind(AssertUnwindSafe(|| rp.serialize_request(&*key))).ok()?.ok()?;
+		let mut parsed = catch_unwind(AssertUnwindSafe(|| CertificateSigningRequestParams::from_der(csr.der()))).ok()?.ok()?;
+		tweak(&mut parsed.params);
+		let want_params = parsed.params.clone();
+		let pp = PCert::of_real(&parsed.params);
+		let ks = key_sexp(&parsed.public_key);
+		let issuer_s = issuer_sexp(&self.issuers[issuer_idx].p, &*self.issuers[issuer_idx].key);
+		let line = format!("cert {} {} {} {}", cfg_name(), pp.sexp(), ks, issuer_s);
+		let model = self.drv.ask(&line);
+		let r = {
+			let iss = &self.issuers[issuer_idx];
+			catch_unwind(AssertUnwindSafe(|| parsed.signed_by(&iss.cert, &iss.key)))
+		};
+		let (real, cert, der, panic_msg) = outcome(r, |c: &Certificate| c.der().to_vec());
+		let out = CaseOut { line: format!("[issued from a parsed request; {}] {}", what, line), real, model, der, cert, panic_msg };
+		self.rep.case(&out.line, true);
+		self.rep.count("certificates_issued_from_parsed_requests");
+		if self.tie_cert && out.real != out.model {
+			let same_kind = out.real.split(' ').next() == out.model.split(' ').next();
+			if !(self.prop == "C10" && same_kind) {
+				self.rep.disagree(&format!("{}:cert-from-request", self.prop), "model and implementation differ on a certificate issued from a parsed request", out.replay());
+			}
+		}
+		if out.real == "panic" {
+			self.rep.violate("C10:panic:cert-from-request", "issuing from a parsed request panics", out.replay());
+		}
+		let der = out.der.clone()?;
+		let sline = format!("spec-cert {} {} {} {}", pp.sexp(), ks, issuer_s, hex(&der));
+		let resp = self.drv.ask(&sline);
+		for clause in Self::parse_fail(&resp) {
+			if self.mine(&clause) || clause.starts_with("spec-driver-error") {
+				self.rep.violate(&format!("{}:issued-from-request", clause), &format!("a certificate issued from a parsed request violates specification clause {}", clause), format!("{}\nspec-request: {}\nspec-answer: {}", out.replay(), sline, resp));
+			}
+		}
+		if let (Some(cert), true) = (&out.cert, self.prop == "C02" || self.prop == "C15") {
+			let kid = cert.key_identifier();
+			let oline = format!("spec-cert-object {} {} {} {} {} {}", cfg_name(), pp.sexp(), ks, issuer_s, hex(&der), hex(&kid));
+			let oresp = self.drv.ask(&oline);
+			self.rep.count("certificate_objects_checked");
+			for clause in Self::parse_fail(&oresp) {
+				if clause == "tie:key-identifier" {
+					self.rep.disagree(&format!("{}:cert-object", self.prop), "model and implementation differ on the key identifier a Certificate reports", format!("{}\nobject-request: {}\nanswer: {}", out.replay(), oline, oresp));
+				} else if self.mine(&clause) {
+					self.rep.violate(&format!("{}:issued-from-request", clause), "Certificate::key_identifier() differs from the subjectKeyIdentifier encoded in the certificate", format!("{}\nreported key identifier: {}\nspec-answer: {}", out.replay(), hex(&kid), oresp));
+				}
+			}
+			if *cert.params() != want_params {
+				self.rep.violate(&format!("{}:reported-params-equal-input:issued-from-request", self.prop), "Certificate::params() differs from the parameters the certificate was issued from", format!("{}\nreported: {:?}", out.replay(), cert.params()));
+			}
+		}
+		Some(der)
+	}
+
+	/// issuance from a parsed request over the dimensions the direct path is swept over: subject
+	/// algorithm x issuer (algorithm, key-identifier method, name shape) x the fields a CA operator
+	/// sets on the parsed parameters before signing (CA flag, key-identifier method, AKI, serial,
+	/// validity inside / beyond the issuer's own window)
+	#[cfg(not(feature = "nocrypto"))]
+	pub fn request_issuance_sweep(&mut self) {
+		let algs: Vec<String> = keys::build_algs().iter().map(|a| alg_name(a).to_string()).collect();
+		let n_iss = self.issuers.len();
+		let mut k = 0usize;
+		for alg in &algs {
+			for ii in 0..n_iss {
+				let mut p = PCert::default_like();
+				p.san = vec![San::Dns("via-request.example".into())];
+				p.ku = vec![KeyUsagePurpose::DigitalSignature];
+				p.nb = Dt::ymd(2020, 1, 1);
+				p.na = Dt::ymd(2051, 6, 1);
+				let variants: Vec<(&str, Box<dyn Fn(&mut CertificateParams)>)> = vec![
+					("as parsed", Box::new(|_| {})),
+					("authority key identifier on", Box::new(|q| q.use_authority_key_identifier_extension = true)),
+					("explicit non-CA, SHA-384 key identifier, AKI on", Box::new(|q| { q.is_ca = IsCa::ExplicitNoCa; q.key_identifier_method = KeyIdMethod::Sha384; q.use_authority_key_identifier_extension = true; })),
+					("CA, SHA-512 key identifier", Box::new(|q| { q.is_ca = IsCa::Ca(BasicConstraints::Constrained(1)); q.key_identifier_method = KeyIdMethod::Sha512; })),
+					("CA, pre-specified key identifier, serial", Box::new(|q| { q.is_ca = IsCa::Ca(BasicConstraints::Unconstrained); q.key_identifier_method = KeyIdMethod::PreSpecified(vec![9, 8, 7]); q.serial_number = Some(SerialNumber::from(77u64)); })),
+					("validity 1960..2070 in an offset", Box::new(|q| { q.not_before = Dt { y: 1960, mo: 3, d: 1, h: 1, mi: 2, s: 3, ns: 5, off: 3600 }.real().unwrap(); q.not_after = Dt { y: 2070, mo: 3, d: 1, h: 23, mi: 59, s: 59, ns: 0, off: -7200 }.real().unwrap(); })),
+				];
+				// quick tier: each (algorithm, issuer) gets two of the variants in rotation, thorough all
+				for (vi, (what, tw)) in variants.iter().enumerate() {
+					if !self.ctx.thorough && (vi + k) % 3 != 0 {
+						continue;
+					}
+					self.cert_from_request(&p, ii, alg, what, tw.as_ref());
+				}
+				k += 1;
+			}
+		}
+		self.rep.exhaustive.push("certificates issued from a parsed request: every subject algorithm x every issuer of the pool x 6 settings of the parsed parameters (quick: a rotating third)".into());
 	}
 
 	pub fn csr(&mut self, p: &PCert, attrs: &[PAttr], alg: &str) -> CaseOut {
@@ -1254,6 +1359,10 @@ pub fn field_variants() -> Vec<Variant> {
 	v.push(("dn-teletex", Box::new(|p| p.dn = Dn(vec![(DnT::L, DnV::Teletex("Town".into()))]))));
 	v.push(("dn-bmp", Box::new(|p| p.dn = Dn(vec![(DnT::St, DnV::Bmp(vec![0x4e, 0x2d, 0, 0x41]))]))));
 	v.push(("dn-universal", Box::new(|p| p.dn = Dn(vec![(DnT::Ou, DnV::Universal(vec![0, 1, 0xf6, 0, 0, 0, 0, 0x41]))]))));
+	// BMPString code units at the edges of the surrogate block and of the BMP itself
+	v.push(("dn-bmp-edges", Box::new(|p| p.dn = Dn(vec![(DnT::Cn, DnV::Bmp(vec![0xd5, 0x5c, 0xd0, 0x00, 0xd7, 0xff, 0xcf, 0xff, 0xe0, 0x00, 0xff, 0xfe, 0x00, 0x00]))]))));
+	v.push(("dn-universal-edges", Box::new(|p| p.dn = Dn(vec![(DnT::Cn, DnV::Universal(vec![0, 0, 0xd7, 0xff, 0, 0, 0xe0, 0, 0, 0x10, 0xff, 0xff, 0, 0, 0, 0]))]))));
+	v.push(("nc-dirname-bmp-edges", Box::new(|p| { p.ca = Ca::Ca(None); p.nc = Some((vec![Subtree::DirName(Dn(vec![(DnT::O, DnV::Bmp(vec![0xd5, 0x5c, 0xd7, 0xff]))]))], vec![])); })));
 	v.push(("dn-many", Box::new(|p| {
 		p.dn = Dn(vec![
 			(DnT::C, DnV::Printable("US".into())),
@@ -1319,6 +1428,8 @@ pub fn run(ctx: &mut Ctx, prop: &str) -> Report {
 			s.kid_sweep();
 			s.api_surface();
 			s.ctor_sweep();
+			#[cfg(not(feature = "nocrypto"))]
+			s.request_issuance_sweep();
 			s.random_certs(n(600, 40000));
 		},
 		"C04" => {
@@ -1367,6 +1478,8 @@ pub fn run(ctx: &mut Ctx, prop: &str) -> Report {
 			s.time_sweep();
 			s.time_edge_sweep();
 			s.ctor_ymd();
+			#[cfg(not(feature = "nocrypto"))]
+			s.request_issuance_sweep();
 			s.random_certs(n(150, 5000));
 			s.random_crls(n(300, 10000));
 		},
